@@ -453,6 +453,21 @@ class Exporter {
       (void)U;
       return;
     }
+    if (auto *OE = dyn_cast<OffsetOfExpr>(E)) {
+      // offsetof(T, a.b): the record type and the field path
+      O["k"] = "offsetof";
+      O["record"] = ty(OE->getTypeSourceInfo()->getType());
+      json::Array Path;
+      for (unsigned i = 0; i < OE->getNumComponents(); ++i) {
+        const OffsetOfNode &N = OE->getComponent(i);
+        if (N.getKind() == OffsetOfNode::Field && N.getField()) Path.push_back(N.getField()->getNameAsString());
+        else Path.push_back("?");
+      }
+      O["path"] = std::move(Path);
+      Expr::EvalResult R;
+      if (!E->isValueDependent() && E->EvaluateAsRValue(R, Ctx)) O["cval"] = apval(R.Val);
+      return;
+    }
     if (auto *U = dyn_cast<UnresolvedLookupExpr>(E)) {
       O["k"] = "ref";
       O["dk"] = "unresolved";
